@@ -196,3 +196,10 @@ class ScratchBase:
             os.environ.pop("VERIF_TMP", None)
         else:
             os.environ["VERIF_TMP"] = self.prev
+
+
+def gc_point():
+    """A fixed point at which cyclic garbage is collected (see the GC discipline note in sim/main.py)."""
+    import gc
+
+    gc.collect()
